@@ -1184,6 +1184,13 @@ def fam_zeroize(rng):
             out.append(_with({"kind": "zeroize_probe", "input": _inp(n), "updates": ups, "reset_after": reset_after},
                              MODES[mi % 3]))
             mi += 1
+    # readers that were read and re-positioned before the wipe (block boundaries and mid-block positions)
+    for n in (3, 1500):
+        for rops in ([("fill", 10), ("set", 0)], [("set", 70), ("set", 128)], [("fill", 70), ("set", 64)], [("fill", 6)],
+                     [("set", 100), ("fill", 28)], [("fill", 64), ("fill", 64), ("set", 1)]):
+            out.append(_with({"kind": "zeroize_probe", "input": _inp(n), "updates": [n], "reset_after": False,
+                              "reader_ops": [{"op": a, "v": b} for a, b in rops]}, MODES[mi % 3]))
+            mi += 1
     return out
 
 
